@@ -35,7 +35,7 @@ if '--write' in sys.argv:
     a, b = s.index('<!-- SEEDED_TABLE_BEGIN -->'), s.index('<!-- SEEDED_TABLE_END -->')
     s = s[:a] + '<!-- SEEDED_TABLE_BEGIN -->\n' + table + '\n' + s[b:]
     open(dp, 'w').write(s)
-    n = sum(1 for r in rows if 'own check' in r)
+    n = sum(1 for r in rows if '| own check' in r)
     print(f'{len(rows)} rows written; own check caught {n}')
 else:
     print(table)
